@@ -112,7 +112,7 @@ func runRef(c RefCase, r *runlog.R) error {
 	segs := classifyEsc(key, c.Sep, max, numKeys, c.Escape)
 	for _, s := range segs {
 		if s.isIdx && s.idx > materialLimit() {
-			r.Class("discarded: index above 1025 (thorough tier 5001) under a huge MaxIdx, list not materialised")
+			r.Class("discarded: index above 1025 under a huge MaxIdx, list not materialised")
 			r.Discard()
 			return nil
 		}
